@@ -266,6 +266,8 @@ class C04(Spec):
         bitdepth = rng.choice([16, 24, 32])
         rate = rng.choice([48000, 44100])
         frames = rng.choice(FRAME_CHOICES_LONG if long_frames else FRAME_CHOICES_QUICK)
+        if long_frames and long_frames is not True:
+            frames = long_frames
         yaml_text, speakers, sk, screen_kind = speakers_variant(rng, lay)
         if screen_probe:  # a speakers file whose screen entry is `screen_probe`, with and without a speakers list
             while screen_kind != screen_probe:
@@ -416,14 +418,15 @@ class C04(Spec):
         tmp = tempfile.mkdtemp(prefix="c04_")
         try:
             lines, metas = [], []
-            n = 8 if ctx.quick else 150
+            n = 7 if ctx.quick else 150
             for i in range(n):
                 self._one(ctx, tmp, i, lines, metas)
             for i, mode in enumerate(["at", "above-neg", "at-neg", "above-pos", "above"] if ctx.quick
                                      else ["at", "above", "above-neg", "at-neg", "above-pos"] * 4):
                 self._one(ctx, tmp, 1000 + i, lines, metas, exact_overload=mode)
-            for i in range(1 if ctx.quick else 12):
-                self._one(ctx, tmp, 2000 + i, lines, metas, long_frames=True)
+            # lengths at and around the 8192-frame processing block: the exact multiples always, the others by draw
+            for i, fl in enumerate([8192, 16384] + ([None] if ctx.quick else [8191, 8193, 12345, 24576, None, None, None])):
+                self._one(ctx, tmp, 2000 + i, lines, metas, long_frames=fl if fl else True)
             for i, sk in enumerate(["null", "narrow", "null"] if ctx.quick else ["null", "narrow", "offset"] * 6):
                 self._one(ctx, tmp, 3000 + i, lines, metas, screen_probe=sk)
             self._flush(ctx, driver, lines, metas)
